@@ -68,6 +68,28 @@ fn extract_version_prefix(version: &str) -> &str {
     }
 }
 
+/// Point a package at the version text inside its value token.
+///
+/// A bump replaces `version.len()` characters starting at the reported column, so that range
+/// must hold exactly the version. For an npm alias (`npm:name@^1.0.0`) or a JSR specifier
+/// (`jsr:@scope/name@^1.0.0`) the reported token is the whole specifier: the version is located
+/// inside it. Returns `None` when the version text does not occur in the token (for example a
+/// PEP 440 specifier that was normalised while parsing), because no safe edit exists then.
+pub fn locate_version_in_token(package: &PackageInfo, content: &str) -> Option<PackageInfo> {
+    // Hash-pinned actions are rewritten as a whole (hash and comment)
+    if package.commit_hash.is_some() {
+        return Some(package.clone());
+    }
+
+    let token = content.get(package.start_offset..package.end_offset)?;
+    let shift = token.rfind(package.version.as_str())?;
+
+    let mut located = package.clone();
+    located.start_offset += shift;
+    located.column += shift;
+    Some(located)
+}
+
 /// Generate Code Actions for version bumping
 ///
 /// Creates up to 3 code actions (patch, minor, major) based on available versions.
